@@ -17,8 +17,11 @@ def main():
     keys = {}
     for f in res['failures']:
         keys.setdefault(f['key'], []).append(f)
+    new = [k for k in keys if not core.match_known(pid, k)]
     for k, fs in list(keys.items())[:int(os.environ.get("VERIF_SHOW", "12"))]:
-        print(len(fs), k, '::', fs[0]['what'][:400])
+        print('FAIL' if k in new else 'known', len(fs), k, '::', fs[0]['what'][:400])
+    print(f'SUMMARY new_keys={len(new)} known_keys={len(keys) - len(new)} first_new={new[:4]}')
 
 
-main()
+if __name__ == '__main__':
+    main()
